@@ -200,6 +200,20 @@ theorem ToBool_table (f32 f64 : F → List Nat) (s : Src) (ty : String) (hty : t
 
 /-- `ToString`. Complex sources are excluded: the code renders them with `%g`, the model does
     not model complex → string (declared outside the property's sources, see `outside`). -/
+theorem ToString_table (f32 f64 : F → List Nat) (s : Src) (ty : String) (hty : ty ∈ goTypes s)
+    (hc : ∀ re im mag, s ≠ .cplx re im mag) :
+    Gen.CoerceDispatch.ToString.run (env f32 f64) ty s noNext = some (Val.str <$> Coerce.toStr f32 f64 s) := by
+  cases s with
+  | int t v =>
+    cases t <;> simp [goTypes, IntTy.goName] at hty <;> subst hty <;> simp only [Gen.CoerceDispatch.ToString, Table.run, find] <;> table_simp
+  | f32 x => simp [goTypes] at hty; subst hty; simp only [Gen.CoerceDispatch.ToString, Table.run, find]; table_simp
+  | f64 x => simp [goTypes] at hty; subst hty; simp only [Gen.CoerceDispatch.ToString, Table.run, find]; table_simp
+  | bool b => simp [goTypes] at hty; subst hty; simp only [Gen.CoerceDispatch.ToString, Table.run, find]; cases b <;> table_simp
+  | str i => simp [goTypes] at hty; subst hty; simp only [Gen.CoerceDispatch.ToString, Table.run, find]; table_simp
+  | big v => simp [goTypes] at hty; subst hty; simp only [Gen.CoerceDispatch.ToString, Table.run, find]; table_simp
+  | cplx re im mag => exact absurd rfl (hc re im mag)
+  | nilptr => simp [goTypes] at hty
+  | other => simp [goTypes] at hty; subst hty; simp only [Gen.CoerceDispatch.ToString, Table.run, find]; table_simp
 
 theorem big_float_case (o : Option Ordering) (i : Int) :
     (if Rel.ne.holds o = true then some (Except.error CErr.notWhole) else some (Except.ok (Val.int i))) =
